@@ -9,6 +9,12 @@ pub const SNIPPETS: &[&str] = &[
     "--- doc with `code` and **bold**\n--- ```lua\n--- local x = 1\n--- ```\n---@param a string|integer?\n---@return fun(x: integer): string\nlocal function f(a) return function(x) return tostring(x) end end\nf('é😀')\n",
     "---@enum E\nlocal E = { A = 1, B = 2 }\n---@alias Id string|integer\n---@type Id\nlocal id = E.A\nif id == 1 then id = 's' elseif id then id = nil end\n",
     "local a <const> = 1\nlocal b <close> = nil\ngoto done\n::done::\nreturn a // 2 | 3 ~ 1\n",
+    // completion / signature triggers at the end of a line, with the closing token on a following line
+    "local someTable = { 1, 2, 3 }\nsomeTable[#\n]\nlocal x = someTable[#]\nlocal y = someTable[# ]\n",
+    "local t = { a = 1, b = { c = 2 } }\nt.\nlocal y = t:\nprint(t.b.\n)\nt.b[\n]\n",
+    "---@class K\n---@field f integer\n---@field g fun(self: K, n: integer): string\nlocal k = {} ---@type K\nk.\nk:\nk:g(\n)\nlocal s = 'x'\ns:\n",
+    "local r = require(\"\n\")\nlocal function f(a, b) end\nf(\n)\nf(1,\n)\nlocal u = f\n(2)\n",
+    "---@type \nlocal a\n---@param \n---@return \nfunction g(p) end\n---@class \n---@field \n---@diagnostic \n---@diagnostic disable-next-line: \n",
 ];
 
 pub fn document(tier: Tier) -> BoxedStrategy<(String, String)> {
